@@ -20,10 +20,11 @@ pub const CPU_LIMIT_S: f64 = 5.0;
 pub fn envelope_cpu_us(len: usize, units: u64) -> u64 {
     150_000 + 60 * len as u64 + 3_000 * units
 }
-/// Inputs that are only parsed and inspected (kinds `*-parse`): no cryptographic work is done, so
-/// the allowance per byte is much smaller — 150 ms + 0.4 us/byte (reading 1.5 MB takes ~15 ms).
-pub fn envelope_parse_cpu_us(len: usize) -> u64 {
-    150_000 + (4 * len as u64) / 10
+/// Inputs that are only parsed and inspected (kinds `*-parse`): no decapsulation work is done, so
+/// the allowance per byte is much smaller — 150 ms + 0.4 us/byte, plus 60 us for every
+/// elliptic-curve point the input makes the reader decompress (about 22 us each on P-256).
+pub fn envelope_parse_cpu_us(len: usize, points: u64) -> u64 {
+    150_000 + (4 * len as u64) / 10 + 60 * points
 }
 pub fn envelope_peak(len: usize) -> u64 {
     (2 << 20) + 96 * len as u64
@@ -40,6 +41,9 @@ pub struct Input {
     pub bytes: Vec<u8>,
     pub class: String,
     pub changes_count: bool,
+    /// elliptic-curve points a well-formed reading of the input has to decode (crafted inputs
+    /// only; decompressing a point costs tens of microseconds on P-256)
+    pub points: u64,
 }
 
 fn judge(inp: &Input, out: &Outcome) -> Result<Option<Reply>, Fail> {
@@ -52,8 +56,8 @@ fn judge(inp: &Input, out: &Outcome) -> Result<Option<Reply>, Fail> {
             if r.status != "ok" && r.status != "err" {
                 return Err(Fail::new("worker-protocol", format!("unexpected reply {:?}", r)));
             }
-            if inp.kind.ends_with("-parse") && r.cpu_us > envelope_parse_cpu_us(len) {
-                return Err(Fail::new("cpu-envelope-exceeded", format!("{} input ({} bytes, {}): {} us of CPU to parse and inspect, envelope {}", inp.kind, len, inp.class, r.cpu_us, envelope_parse_cpu_us(len))));
+            if inp.kind.ends_with("-parse") && r.cpu_us > envelope_parse_cpu_us(len, inp.points) {
+                return Err(Fail::new("cpu-envelope-exceeded", format!("{} input ({} bytes, {} points, {}): {} us of CPU to parse and inspect, envelope {}", inp.kind, len, inp.points, inp.class, r.cpu_us, envelope_parse_cpu_us(len, inp.points))));
             }
             if r.cpu_us > envelope_cpu_us(len, r.units) {
                 return Err(Fail::new("cpu-envelope-exceeded", format!("{} input ({} bytes, {}): {} us of CPU for {} work units, envelope {}", inp.kind, len, inp.class, r.cpu_us, r.units, envelope_cpu_us(len, r.units))));
@@ -91,13 +95,13 @@ fn enumerate(kind: &str, seed: &[u8], thorough: bool, out: &mut Vec<Input>) {
     let stride = if small || thorough { 1 } else { 13 };
     let mut l = 0;
     while l < n {
-        out.push(Input { kind: kind.into(), bytes: seed[..l].to_vec(), class: "truncation".into(), changes_count: false });
+        out.push(Input { kind: kind.into(), bytes: seed[..l].to_vec(), class: "truncation".into(), changes_count: false, points: 0 });
         l += if l < 300 { 1 } else { stride };
     }
     // extension
     let mut e = seed.to_vec();
     e.push(0);
-    out.push(Input { kind: kind.into(), bytes: e, class: "extension".into(), changes_count: false });
+    out.push(Input { kind: kind.into(), bytes: e, class: "extension".into(), changes_count: false, points: 0 });
     // single-byte corruptions
     let bstride = if small { 1 } else if thorough { 3 } else { 29 };
     let mut off = 0;
@@ -111,7 +115,7 @@ fn enumerate(kind: &str, seed: &[u8], thorough: bool, out: &mut Vec<Input>) {
                 _ => b[off] = 0xff,
             }
             if b != seed {
-                out.push(Input { kind: kind.into(), bytes: b, class: format!("byte-{name}"), changes_count: false });
+                out.push(Input { kind: kind.into(), bytes: b, class: format!("byte-{name}"), changes_count: false, points: 0 });
             }
         }
         off += if off < 200 { 1 } else { bstride };
@@ -138,13 +142,13 @@ fn enumerate(kind: &str, seed: &[u8], thorough: bool, out: &mut Vec<Input>) {
                 leb_encode(v, &mut b);
                 b.extend_from_slice(&seed[f.off + f.len..]);
                 let vc = if v == 0 { "0".to_string() } else if v < 128 { "small".into() } else if v < (1 << 32) { "medium".into() } else { "huge".into() };
-                out.push(Input { kind: kind.into(), bytes: b, class: format!("field:{}={vc}", f.kind), changes_count: true });
+                out.push(Input { kind: kind.into(), bytes: b, class: format!("field:{}={vc}", f.kind), changes_count: true, points: 0 });
             }
             // over-long LEB128 encoding of the same value and an unterminated one
             let mut b = seed[..f.off].to_vec();
             b.extend_from_slice(&[0x80 | (f.value as u8 & 0x7f), 0x80, 0x80, 0x80, 0x80, 0x80, 0x80, 0x80, 0x80, 0x80, 0x80, 0x00]);
             b.extend_from_slice(&seed[f.off + f.len..]);
-            out.push(Input { kind: kind.into(), bytes: b, class: format!("field:{}=overlong-leb", f.kind), changes_count: true });
+            out.push(Input { kind: kind.into(), bytes: b, class: format!("field:{}=overlong-leb", f.kind), changes_count: true, points: 0 });
         }
     }
     // zero-element variants through the codec
@@ -153,33 +157,33 @@ fn enumerate(kind: &str, seed: &[u8], thorough: bool, out: &mut Vec<Input>) {
             if let Ok(w) = wire::WXEnc::decode(seed) {
                 let mut a = w.clone();
                 a.c.clear();
-                out.push(Input { kind: kind.into(), bytes: a.encode(), class: "zero:no-traps".into(), changes_count: true });
+                out.push(Input { kind: kind.into(), bytes: a.encode(), class: "zero:no-traps".into(), changes_count: true, points: 0 });
                 let mut a = w.clone();
                 a.encs.clear();
-                out.push(Input { kind: kind.into(), bytes: a.encode(), class: "zero:no-components".into(), changes_count: true });
+                out.push(Input { kind: kind.into(), bytes: a.encode(), class: "zero:no-components".into(), changes_count: true, points: 0 });
                 let mut a = w.clone();
                 a.c.truncate(1);
-                out.push(Input { kind: kind.into(), bytes: a.encode(), class: "zero:one-trap".into(), changes_count: true });
+                out.push(Input { kind: kind.into(), bytes: a.encode(), class: "zero:one-trap".into(), changes_count: true, points: 0 });
                 let mut a = w.clone();
                 let x = a.encs[0].clone();
                 for _ in 0..40 {
                     a.encs.push(x.clone());
                 }
-                out.push(Input { kind: kind.into(), bytes: a.encode(), class: "many-components".into(), changes_count: true });
+                out.push(Input { kind: kind.into(), bytes: a.encode(), class: "many-components".into(), changes_count: true, points: 0 });
             }
         }
         "header" => {
             if let Ok(w) = wire::WHeader::decode(seed) {
                 let mut a = w.clone();
                 a.enc.c.clear();
-                out.push(Input { kind: kind.into(), bytes: a.encode(), class: "zero:no-traps".into(), changes_count: true });
+                out.push(Input { kind: kind.into(), bytes: a.encode(), class: "zero:no-traps".into(), changes_count: true, points: 0 });
                 let mut a = w.clone();
                 a.meta.clear();
-                out.push(Input { kind: kind.into(), bytes: a.encode(), class: "zero:no-metadata".into(), changes_count: true });
+                out.push(Input { kind: kind.into(), bytes: a.encode(), class: "zero:no-metadata".into(), changes_count: true, points: 0 });
                 for n in 0..w.meta.len().min(30) {
                     let mut a = w.clone();
                     a.meta.truncate(n);
-                    out.push(Input { kind: kind.into(), bytes: a.encode(), class: "metadata-truncated".into(), changes_count: true });
+                    out.push(Input { kind: kind.into(), bytes: a.encode(), class: "metadata-truncated".into(), changes_count: true, points: 0 });
                 }
             }
         }
@@ -187,95 +191,95 @@ fn enumerate(kind: &str, seed: &[u8], thorough: bool, out: &mut Vec<Input>) {
             if let Ok(w) = wire::WUsk::decode(seed) {
                 let mut a = w.clone();
                 a.id.clear();
-                out.push(Input { kind: kind.into(), bytes: a.encode(), class: "zero:no-markers".into(), changes_count: true });
+                out.push(Input { kind: kind.into(), bytes: a.encode(), class: "zero:no-markers".into(), changes_count: true, points: 0 });
                 let mut a = w.clone();
                 a.rights.clear();
-                out.push(Input { kind: kind.into(), bytes: a.encode(), class: "zero:no-rights".into(), changes_count: true });
+                out.push(Input { kind: kind.into(), bytes: a.encode(), class: "zero:no-rights".into(), changes_count: true, points: 0 });
                 let mut a = w.clone();
                 a.ps.clear();
-                out.push(Input { kind: kind.into(), bytes: a.encode(), class: "zero:no-tracing-points".into(), changes_count: true });
+                out.push(Input { kind: kind.into(), bytes: a.encode(), class: "zero:no-tracing-points".into(), changes_count: true, points: 0 });
                 let mut a = w.clone();
                 for r in a.rights.iter_mut() {
                     r.1.clear();
                 }
-                out.push(Input { kind: kind.into(), bytes: a.encode(), class: "zero:empty-chains".into(), changes_count: true });
+                out.push(Input { kind: kind.into(), bytes: a.encode(), class: "zero:empty-chains".into(), changes_count: true, points: 0 });
                 let mut a = w.clone();
                 a.rights.truncate(1);
                 a.rights[0].1.truncate(1);
                 a.signature = None;
-                out.push(Input { kind: kind.into(), bytes: a.encode(), class: "zero:unsigned-single".into(), changes_count: true });
+                out.push(Input { kind: kind.into(), bytes: a.encode(), class: "zero:unsigned-single".into(), changes_count: true, points: 0 });
                 let mut a = w.clone();
                 a.id.truncate(1);
-                out.push(Input { kind: kind.into(), bytes: a.encode(), class: "zero:one-marker".into(), changes_count: true });
+                out.push(Input { kind: kind.into(), bytes: a.encode(), class: "zero:one-marker".into(), changes_count: true, points: 0 });
             }
         }
         "mpk" => {
             if let Ok(w) = wire::WMpk::decode(seed) {
                 let mut a = w.clone();
                 a.tpk.clear();
-                out.push(Input { kind: kind.into(), bytes: a.encode(), class: "zero:no-tracing-points".into(), changes_count: true });
+                out.push(Input { kind: kind.into(), bytes: a.encode(), class: "zero:no-tracing-points".into(), changes_count: true, points: 0 });
                 let mut a = w.clone();
                 a.keys.clear();
-                out.push(Input { kind: kind.into(), bytes: a.encode(), class: "zero:no-rights".into(), changes_count: true });
+                out.push(Input { kind: kind.into(), bytes: a.encode(), class: "zero:no-rights".into(), changes_count: true, points: 0 });
                 let mut a = w.clone();
                 a.structure.dims.clear();
-                out.push(Input { kind: kind.into(), bytes: a.encode(), class: "zero:empty-structure".into(), changes_count: true });
+                out.push(Input { kind: kind.into(), bytes: a.encode(), class: "zero:empty-structure".into(), changes_count: true, points: 0 });
             }
         }
         "msk" => {
             if let Ok(w) = wire::WMsk::decode(seed) {
                 let mut a = w.clone();
                 a.tracers.clear();
-                out.push(Input { kind: kind.into(), bytes: a.encode(), class: "zero:no-tracers".into(), changes_count: true });
+                out.push(Input { kind: kind.into(), bytes: a.encode(), class: "zero:no-tracers".into(), changes_count: true, points: 0 });
                 let mut a = w.clone();
                 a.rights.clear();
-                out.push(Input { kind: kind.into(), bytes: a.encode(), class: "zero:no-rights".into(), changes_count: true });
+                out.push(Input { kind: kind.into(), bytes: a.encode(), class: "zero:no-rights".into(), changes_count: true, points: 0 });
                 let mut a = w.clone();
                 for r in a.rights.iter_mut() {
                     r.1.clear();
                 }
-                out.push(Input { kind: kind.into(), bytes: a.encode(), class: "zero:empty-chains".into(), changes_count: true });
+                out.push(Input { kind: kind.into(), bytes: a.encode(), class: "zero:empty-chains".into(), changes_count: true, points: 0 });
                 let mut a = w.clone();
                 a.users.push(vec![]);
-                out.push(Input { kind: kind.into(), bytes: a.encode(), class: "zero:user-without-markers".into(), changes_count: true });
+                out.push(Input { kind: kind.into(), bytes: a.encode(), class: "zero:user-without-markers".into(), changes_count: true, points: 0 });
                 let mut a = w.clone();
                 a.signing_key = None;
-                out.push(Input { kind: kind.into(), bytes: a.encode(), class: "zero:no-signing-key".into(), changes_count: true });
+                out.push(Input { kind: kind.into(), bytes: a.encode(), class: "zero:no-signing-key".into(), changes_count: true, points: 0 });
                 let mut a = w.clone();
                 a.structure.dims.clear();
-                out.push(Input { kind: kind.into(), bytes: a.encode(), class: "zero:empty-structure".into(), changes_count: true });
+                out.push(Input { kind: kind.into(), bytes: a.encode(), class: "zero:empty-structure".into(), changes_count: true, points: 0 });
             }
         }
         "structure" => {
             if let Ok(w) = wire::WStructure::decode(seed) {
                 let mut a = w.clone();
                 a.dims.clear();
-                out.push(Input { kind: kind.into(), bytes: a.encode(), class: "zero:no-dimensions".into(), changes_count: true });
+                out.push(Input { kind: kind.into(), bytes: a.encode(), class: "zero:no-dimensions".into(), changes_count: true, points: 0 });
                 let mut a = w.clone();
                 for d in a.dims.iter_mut() {
                     d.attrs.clear();
                 }
-                out.push(Input { kind: kind.into(), bytes: a.encode(), class: "zero:no-attributes".into(), changes_count: true });
+                out.push(Input { kind: kind.into(), bytes: a.encode(), class: "zero:no-attributes".into(), changes_count: true, points: 0 });
                 let mut a = w.clone();
                 a.next_id = Some(u64::MAX);
                 a.version = 1;
-                out.push(Input { kind: kind.into(), bytes: a.encode(), class: "next-id-max".into(), changes_count: true });
+                out.push(Input { kind: kind.into(), bytes: a.encode(), class: "next-id-max".into(), changes_count: true, points: 0 });
                 let mut a = w.clone();
                 if let Some(d) = a.dims.first_mut() {
                     if let Some(at) = d.attrs.first_mut() {
                         at.id = u64::MAX;
                     }
                 }
-                out.push(Input { kind: kind.into(), bytes: a.encode(), class: "attribute-id-max".into(), changes_count: true });
+                out.push(Input { kind: kind.into(), bytes: a.encode(), class: "attribute-id-max".into(), changes_count: true, points: 0 });
                 let mut a = w.clone();
                 a.version = 0;
                 a.next_id = None;
-                out.push(Input { kind: kind.into(), bytes: a.encode(), class: "version-v1".into(), changes_count: true });
+                out.push(Input { kind: kind.into(), bytes: a.encode(), class: "version-v1".into(), changes_count: true, points: 0 });
                 let mut a = w.clone();
                 if let Some(d) = a.dims.first().cloned() {
                     a.dims.push(d);
                 }
-                out.push(Input { kind: kind.into(), bytes: a.encode(), class: "duplicate-dimension".into(), changes_count: true });
+                out.push(Input { kind: kind.into(), bytes: a.encode(), class: "duplicate-dimension".into(), changes_count: true, points: 0 });
             }
         }
         _ => {}
@@ -308,13 +312,13 @@ fn mut_strategy() -> impl Strategy<Value = Mut> {
 fn apply(m: &Mut, seeds: &[(String, Vec<u8>)], kinds: &[&str], i: u64) -> Input {
     let at = |s: &Vec<u8>, x: u16| (x as usize * (s.len() + 1)) >> 16;
     match m {
-        Mut::Random(v) => Input { kind: kinds[(i as usize) % kinds.len()].to_string(), bytes: v.clone(), class: "random-bytes".into(), changes_count: false },
+        Mut::Random(v) => Input { kind: kinds[(i as usize) % kinds.len()].to_string(), bytes: v.clone(), class: "random-bytes".into(), changes_count: false, points: 0 },
         Mut::Splice(a, x, b, y) => {
             let (ka, sa) = &seeds[*a as usize % seeds.len()];
             let (_, sb) = &seeds[*b as usize % seeds.len()];
             let mut v = sa[..at(sa, *x)].to_vec();
             v.extend_from_slice(&sb[at(sb, *y)..]);
-            Input { kind: ka.clone(), bytes: v, class: "splice".into(), changes_count: false }
+            Input { kind: ka.clone(), bytes: v, class: "splice".into(), changes_count: false, points: 0 }
         }
         Mut::Smash(a, x, n, val) => {
             let (ka, sa) = &seeds[*a as usize % seeds.len()];
@@ -323,7 +327,7 @@ fn apply(m: &Mut, seeds: &[(String, Vec<u8>)], kinds: &[&str], i: u64) -> Input 
             for j in p..(p + *n as usize).min(v.len()) {
                 v[j] = *val;
             }
-            Input { kind: ka.clone(), bytes: v, class: "smash".into(), changes_count: false }
+            Input { kind: ka.clone(), bytes: v, class: "smash".into(), changes_count: false, points: 0 }
         }
         Mut::Insert(a, x, ins) => {
             let (ka, sa) = &seeds[*a as usize % seeds.len()];
@@ -331,7 +335,7 @@ fn apply(m: &Mut, seeds: &[(String, Vec<u8>)], kinds: &[&str], i: u64) -> Input 
             let mut v = sa[..p].to_vec();
             v.extend_from_slice(ins);
             v.extend_from_slice(&sa[p..]);
-            Input { kind: ka.clone(), bytes: v, class: "insert".into(), changes_count: false }
+            Input { kind: ka.clone(), bytes: v, class: "insert".into(), changes_count: false, points: 0 }
         }
         Mut::Remove(a, x, n) => {
             let (ka, sa) = &seeds[*a as usize % seeds.len()];
@@ -339,7 +343,7 @@ fn apply(m: &Mut, seeds: &[(String, Vec<u8>)], kinds: &[&str], i: u64) -> Input 
             let q = (p + *n as usize).min(sa.len());
             let mut v = sa[..p].to_vec();
             v.extend_from_slice(&sa[q..]);
-            Input { kind: ka.clone(), bytes: v, class: "remove".into(), changes_count: false }
+            Input { kind: ka.clone(), bytes: v, class: "remove".into(), changes_count: false, points: 0 }
         }
     }
 }
@@ -424,7 +428,7 @@ pub fn run(ctx: &Ctx, col: &Collector) -> Meta {
                 let mut inputs = vec![];
                 for (k, b) in child.seeds.clone() {
                     // calibration: the valid object itself
-                    inputs.push(Input { kind: k.clone(), bytes: b.clone(), class: "valid".into(), changes_count: false });
+                    inputs.push(Input { kind: k.clone(), bytes: b.clone(), class: "valid".into(), changes_count: false, points: 0 });
                     enumerate(&k, &b, ctx.thorough, &mut inputs);
                 }
                 // crafted: structures with many one-attribute dimensions (the number of rights is
@@ -447,7 +451,7 @@ pub fn run(ctx: &Ctx, col: &Collector) -> Meta {
                             _ => None,
                         };
                         if let Some(bytes) = bytes {
-                            inputs.push(Input { kind: format!("{k}-parse"), bytes, class: "crafted:many-dimensions".into(), changes_count: true });
+                            inputs.push(Input { kind: format!("{k}-parse"), bytes, class: "crafted:many-dimensions".into(), changes_count: true, points: 0 });
                         }
                     }
                 }
@@ -477,7 +481,8 @@ pub fn run(ctx: &Ctx, col: &Collector) -> Meta {
                     if let Some(bytes) = bytes {
                         // one of each is enough: the seeds of a kind differ in shape only
                         if !inputs.iter().any(|x: &Input| x.kind == format!("{k}-parse") && x.class == "crafted:many-rights") {
-                            inputs.push(Input { kind: format!("{k}-parse"), bytes, class: "crafted:many-rights".into(), changes_count: true });
+                            let points = if k == "mpk" { n as u64 + 8 } else { 8 };
+                            inputs.push(Input { kind: format!("{k}-parse"), bytes, class: "crafted:many-rights".into(), changes_count: true, points });
                         }
                     }
                 }
@@ -528,7 +533,7 @@ pub fn run(ctx: &Ctx, col: &Collector) -> Meta {
     col.note(format!("envelope use (max observed / allowed): cpu {:.3}, peak memory {:.3}, largest allocation {:.3}", c.0, c.1, c.2));
     let found = found.map.into_inner().unwrap();
     for (_sig, (f, inp)) in found {
-        report_fail(col, "bytes", f, json!({"kind": inp.kind, "class": inp.class, "hex": wire::hex(&inp.bytes)}));
+        report_fail(col, "bytes", f, json!({"kind": inp.kind, "class": inp.class, "points": inp.points, "hex": wire::hex(&inp.bytes)}));
     }
     for c in [
         "mut:truncation", "mut:byte-xor01", "mut:byte-setff", "mut:field=0", "mut:field=small", "mut:field=medium", "mut:field=huge", "mut:field=overlong-leb",
@@ -546,7 +551,7 @@ pub fn run(ctx: &Ctx, col: &Collector) -> Meta {
     }
     Meta {
         level: "fault_enumeration",
-        rule: format!("for valid serializations of encapsulations (classic, hybridized, multi-target), an encrypted header, user keys (two revisions, hybridized), a public key, a master key and an access structure, produced inside an isolated worker process: every truncation (strided beyond 300 bytes for large objects in the quick tier), single-byte corruptions (xor 01 / xor 80 / 00 / ff at every offset of small objects, strided for large ones), every count / length / flag field located by the independent codec replaced by each of {BOUNDARY:?} and value+-1, over-long LEB128, zero-element variants (no traps, no markers, no rights, empty chains, no tracers, empty structure), generated splices / smashes / insertions / removals and random strings, crafted structures of 10-26 one-attribute dimensions (alone, inside a public key, inside a master key; parsed and inspected only), a user key and a public key with 40 000 distinct rights (90 000 in the thorough tier; parsed and inspected only, CPU <= 150 ms + 0.4 us/byte); every mutant that parses is used (decaps with honest keys, recaps, header decrypt, refresh, encaps under a parsed public key, key generation / update / rekey with a parsed master key, accessors). Oracle: a value or an error — no panic, abort, signal — with CPU <= 150ms + 60us/byte + 3ms per decapsulation trial, peak allocation <= 2MiB + 96 B/byte, largest single allocation <= 512KiB + 24 B/byte. Non-trivial = mutant of a count / length field, or mutant that parses; distinct by (type, mutation class, parsed?)"),
+        rule: format!("for valid serializations of encapsulations (classic, hybridized, multi-target), an encrypted header, user keys (two revisions, hybridized), a public key, a master key and an access structure, produced inside an isolated worker process: every truncation (strided beyond 300 bytes for large objects in the quick tier), single-byte corruptions (xor 01 / xor 80 / 00 / ff at every offset of small objects, strided for large ones), every count / length / flag field located by the independent codec replaced by each of {BOUNDARY:?} and value+-1, over-long LEB128, zero-element variants (no traps, no markers, no rights, empty chains, no tracers, empty structure), generated splices / smashes / insertions / removals and random strings, crafted structures of 10-26 one-attribute dimensions (alone, inside a public key, inside a master key; parsed and inspected only), a user key and a public key with 40 000 distinct rights (90 000 in the thorough tier; parsed and inspected only, CPU <= 150 ms + 0.4 us/byte + 60 us per curve point to decompress); every mutant that parses is used (decaps with honest keys, recaps, header decrypt, refresh, encaps under a parsed public key, key generation / update / rekey with a parsed master key, accessors). Oracle: a value or an error — no panic, abort, signal — with CPU <= 150ms + 60us/byte + 3ms per decapsulation trial, peak allocation <= 2MiB + 96 B/byte, largest single allocation <= 512KiB + 24 B/byte. Non-trivial = mutant of a count / length field, or mutant that parses; distinct by (type, mutation class, parsed?)"),
         exhaustive: false,
         assumptions: vec![
             "'proportional' is an envelope with calibrated constants (ratio of use recorded in notes); a regression inside the envelope is not detected".into(),
@@ -558,7 +563,7 @@ pub fn run(ctx: &Ctx, col: &Collector) -> Meta {
 pub fn replay(_kind: &str, case: &serde_json::Value, _col: &Collector) -> CheckResult {
     let kind = case["kind"].as_str().unwrap_or("xenc").to_string();
     let bytes = wire::unhex(case["hex"].as_str().unwrap_or("")).unwrap_or_default();
-    let inp = Input { kind: kind.clone(), bytes, class: case["class"].as_str().unwrap_or("replay").to_string(), changes_count: false };
+    let inp = Input { kind: kind.clone(), bytes, class: case["class"].as_str().unwrap_or("replay").to_string(), changes_count: false, points: case["points"].as_u64().unwrap_or(0) };
     let mut child = Child::spawn().map_err(|e| Fail::new("infra", e))?;
     let out = child.run(&inp.kind, &inp.bytes, CPU_LIMIT_S);
     judge(&inp, &out).map(|_| ())
